@@ -432,6 +432,9 @@ class MeshTri1(MeshSimplex, Mesh2D):
 
         def finder(x, y, _search_all=False):
 
+            if np.size(x) == 0:  # no points
+                return np.array([], dtype=np.int32)
+
             if not _search_all:
                 ix = tree.query(np.array([x, y]).T,
                                 min(5, nelems))[1].flatten()
